@@ -233,18 +233,18 @@ type c02case struct {
 	streams int
 	resume  bool
 	files   []c02file
-	mode    string // honest, fault, wild, corpus-eof-race
+	mode    string   // honest, fault, wild, corpus-eof-race
 	sched   []string // corpus cases: forced sequence of driver moves (then random)
 }
 
 type sitem struct {
-	kind            string // fr trunc end
-	key             uint64
-	idx, length     int
-	crcOK           bool
-	tok             uint32
-	e               string
-	honest          bool
+	kind        string // fr trunc end
+	key         uint64
+	idx, length int
+	crcOK       bool
+	tok         uint32
+	e           string
+	honest      bool
 }
 
 func ekindCoq(e string) string {
@@ -290,26 +290,26 @@ func frameBytes(key uint64, idx, length int, crc uint32, payload []byte) []byte 
 }
 
 type c02run struct {
-	c        c02case
-	d        *rdrv
-	evs      []string
-	honest   bool // every frame that passed the CRC carried the source bytes of its (key, idx); each file begun at most once
-	ctl      *memnet.Stream
-	data     []*memnet.Stream
-	queued   map[uint64][]sitem // per stream id: sent, not yet handled
-	begunAt  map[uint64]bool    // receiver side mirror: FileBegin handled
-	doneAt   map[uint64]bool    // finalized
-	ctlTaken int
-	errTaken int
+	c           c02case
+	d           *rdrv
+	evs         []string
+	honest      bool // every frame that passed the CRC carried the source bytes of its (key, idx); each file begun at most once
+	ctl         *memnet.Stream
+	data        []*memnet.Stream
+	queued      map[uint64][]sitem // per stream id: sent, not yet handled
+	begunAt     map[uint64]bool    // receiver side mirror: FileBegin handled
+	doneAt      map[uint64]bool    // finalized
+	ctlTaken    int
+	errTaken    int
 	ctlErrTaken bool
-	doneq    bool
-	cancelled bool
-	cancel   context.CancelFunc
-	toks     map[uint32][]byte
-	fault    string
-	ctlGone  bool            // the receiver's control reader has exited (End queued or read error)
-	ctlFifo  []ctlDesc       // records queued for the main loop, oldest first
-	cs0      map[uint64]bool // files announced with chunk size 0 (a chunk for them would crash the process)
+	doneq       bool
+	cancelled   bool
+	cancel      context.CancelFunc
+	toks        map[uint32][]byte
+	fault       string
+	ctlGone     bool            // the receiver's control reader has exited (End queued or read error)
+	ctlFifo     []ctlDesc       // records queued for the main loop, oldest first
+	cs0         map[uint64]bool // files announced with chunk size 0 (a chunk for them would crash the process)
 }
 
 type ctlDesc struct {
@@ -564,15 +564,16 @@ func runC02case(base string, c c02case, rep *hx.Report) c02result {
 	if c.resume {
 		for i := range c.files {
 			f := &c.files[i]
-			if f.item.ID == "" || f.nchunk == 0 || rng.Intn(2) == 0 {
+			preset := len(f.prior) > 0
+			if !preset && (f.item.ID == "" || f.nchunk == 0 || rng.Intn(2) == 0) {
 				continue
 			}
-			for k := 0; k < f.nchunk; k++ {
+			for k := 0; k < f.nchunk && !preset; k++ {
 				if rng.Intn(2) == 0 {
 					f.prior = append(f.prior, k)
 				}
 			}
-			if rng.Intn(5) == 0 { // everything was already there
+			if !preset && rng.Intn(5) == 0 { // everything was already there
 				f.prior = nil
 				for k := 0; k < f.nchunk; k++ {
 					f.prior = append(f.prior, k)
@@ -716,16 +717,23 @@ func runC02case(base string, c c02case, rep *hx.Report) c02result {
 
 	// ---- the peer's program ----
 	type sop struct {
-		kind string // begin chunk end endall resreq other
-		f    int
-		idx  int
+		kind    string // begin chunk end endall resreq other
+		f       int
+		idx     int
 		variant string
+		st      int // chunk: 1 + data stream to use (0 = any)
 	}
 	var prog []sop
 	if c.mode == "corpus-eof-race" {
 		// fixed be041b7: the last chunk arrives corrupted (file failed), the peer ends the control
 		// stream cleanly, and the main select sees that end (possibly) before the reader's error
 		prog = []sop{{kind: "begin", f: 0}, {kind: "chunk", f: 0, idx: 0, variant: "good"}, {kind: "chunk", f: 0, idx: 1, variant: "badcrc"}}
+	} else if c.mode == "corpus-late-dup" {
+		// a resumed file: chunks 0 and 1 are recorded, the sender re-sends the verified
+		// chunk 1 and sends the missing chunk 2 on another stream; chunk 2 finalises the
+		// file, FileEnd is handled, and only then the duplicate of chunk 1 is read
+		prog = []sop{{kind: "begin", f: 0}, {kind: "chunk", f: 0, idx: 1, variant: "good", st: 1}, {kind: "chunk", f: 0, idx: 2, variant: "good", st: 2},
+			{kind: "end", f: 0}, {kind: "begin", f: 1}, {kind: "chunk", f: 1, idx: 0, variant: "good", st: 2}, {kind: "end", f: 1}}
 	} else if c.mode != "wild" {
 		order := rng.Fork(7)
 		fi := make([]int, len(c.files))
@@ -894,6 +902,9 @@ func runC02case(base string, c c02case, rep *hx.Report) c02result {
 			return r.pushCtlEnd()
 		case "chunk":
 			s := rng.Intn(c.streams)
+			if o.st > 0 {
+				s = o.st - 1
+			}
 			if rd := r.readerFor(s); rd == nil || rd.at == "exited" {
 				return true
 			}
@@ -975,9 +986,13 @@ func runC02case(base string, c c02case, rep *hx.Report) c02result {
 					r.doMain()
 					r.syncMirror()
 				}
-			case "reader":
-				if r.readerEnabled(0) {
-					r.doReader(0)
+			case "reader", "reader0", "reader1", "reader2":
+				ri := 0
+				if len(mvk) == 7 {
+					ri = int(mvk[6] - '0')
+				}
+				if ri < c.streams && r.readerEnabled(ri) {
+					r.doReader(ri)
 					r.syncMirror()
 				}
 			case "ctl-eof":
@@ -1239,6 +1254,16 @@ func runC02recvModes(cfg config, rep *hx.Report, cf *hx.CasesFile, n int, modes 
 				files: []c02file{{rel: "f0.bin", data: hx.NewRand(uint64(i)).Bytes(8), nchunk: 2}},
 				sched: []string{"send", "main", "send", "reader", "send", "reader", "ctl-eof", "main", "main", "main"}}
 		}
+		if i >= ncorpus-4 && i < ncorpus {
+			mode = "corpus-late-dup"
+			d0, d1 := hx.NewRand(uint64(100+i)).Bytes(12), hx.NewRand(uint64(200+i)).Bytes(3)
+			c = c02case{id: i, seed: uint64(i), cs: 4, streams: 2, resume: true, mode: mode,
+				files: []c02file{{rel: "f0.bin", data: d0, nchunk: 3, prior: []int{0, 1}}, {rel: "f1.bin", data: d1, nchunk: 1}},
+				sched: []string{"send", "main", "send", "send", "reader1", "send", "main", "reader0", "send", "main", "send", "reader1", "send", "main"}}
+			if i%2 == 1 { // the duplicate is read before FileEnd is handled (the easy order)
+				c.sched = []string{"send", "main", "send", "send", "reader1", "reader0", "send", "main", "send", "main", "send", "reader1", "send", "main"}
+			}
+		}
 		if mode == "wild" && len(c.files) == 0 {
 			mode, c.mode = "honest", "honest"
 		}
@@ -1271,7 +1296,7 @@ func runC02recvModes(cfg config, rep *hx.Report, cf *hx.CasesFile, n int, modes 
 		if res.res == 3 {
 			rep.Violate("recv-panic", "receiver panicked", desc)
 		}
-		if mode == "honest" && res.res != 1 {
+		if (mode == "honest" || mode == "corpus-late-dup") && res.res != 1 {
 			what := "did not return"
 			if res.res == 2 {
 				what = "failed: " + res.retErr
